@@ -29,6 +29,7 @@ import types
 from ..translate import c14 as tr
 
 PROPERTY = "C14"
+CASE_TIMEOUT = 30  # s of wall clock per case in pool workers (runner watchdog): a case that spins forever is a verdict, not exit 2
 THEOREM_MODULE = "NemoVerif.Theorems.C14"
 RULE = ("program: 1-2 dialog flows (distinct start intents) + 0-2 subflows over user/bot/execute/set/if-else/while/"
         "break/continue/do, nesting <= 4, plus dedicated nested-`do` chain programs (depth 2-3, inner call in last position) and computation-loop programs (counters/accumulators, iterations without a blocking statement); condensed re-entry histories (the start intent right after the flow completed or was aborted); history: produced by walking the program with the reference interpreter, "
